@@ -6,11 +6,13 @@
 package c10
 
 import (
+	"errors"
 	"fmt"
 	"sort"
 	"strings"
 	"time"
 
+	"github.com/hugelgupf/p9/linux"
 	"github.com/hugelgupf/p9/p9"
 	"verif/harness/fw"
 	"verif/harness/rawpeer"
@@ -75,6 +77,10 @@ func (s *srvState) threadOf(m refcodec.Msg) int {
 		if t, ok := s.fidOwner[uint32(m.U("fid"))]; ok {
 			return t
 		}
+	case refcodec.Tunlinkat:
+		var id int
+		fmt.Sscanf(m.S("name"), "u%d", &id)
+		return (id - 1) / 16
 	}
 	return -1
 }
@@ -171,6 +177,11 @@ func (s *srvState) reply(i int) {
 		nf := uint32(m.U("fid"))
 		delete(s.binding, nf)
 		s.bound[nf] = true
+	case refcodec.Tunlinkat:
+		// an error reply carrying a request-unique errno
+		var id int
+		fmt.Sscanf(m.S("name"), "u%d", &id)
+		r = refcodec.New(refcodec.Rlerror, m.Tag, uint32(200+id))
 	case refcodec.Tclunk:
 		r = refcodec.New(refcodec.Rclunk, m.Tag)
 		delete(s.bound, uint32(m.U("fid")))
@@ -317,6 +328,19 @@ func scenario(p params) *fw.Scenario {
 							} else {
 								res[ti] = append(res[ti], "getattr:ok")
 							}
+						case "unlink-err":
+							err := root.UnlinkAt(fmt.Sprintf("u%d", id), 0)
+							var en linux.Errno
+							switch {
+							case err == nil:
+								res[ti] = append(res[ti], "unlink-err:WRONG(no error)")
+							case errors.As(err, &en) && uint32(en) == uint32(200+id):
+								res[ti] = append(res[ti], "unlink-err:ok")
+							case errors.As(err, &en) && uint32(en) >= 200 && uint32(en) < 400:
+								res[ti] = append(res[ti], fmt.Sprintf("unlink-err:WRONG(errno %d want %d)", uint32(en), 200+id))
+							default:
+								res[ti] = append(res[ti], "unlink-err:err")
+							}
 						case "walk":
 							nm := fmt.Sprintf("n%d", id)
 							qs, nf, err := root.Walk([]string{nm})
@@ -413,12 +437,14 @@ func generalize(s string) string {
 }
 
 func run(ctx *fw.Ctx, rep *fw.Report) {
-	rep.Rule = "(i) 2-3 goroutines x 1-2 calls (GetAttr, Walk, Close, Remove) on one real p9.Client against a scripted server whose actions (read the next request / answer any pending request) are a free data choice, i.e. every reply order incl. answering before the next request is read; all thread interleavings with at most 1 (quick) / 2 (thorough) preemptions, without reduction (the client's hand-off logic alone has more than 10^5 Mazurkiewicz traces for two calls, so unbounded DPOR does not terminate in budget); (ii) the same sessions with one fault (close, half frame then close, garbage frame, unknown tag, wrong reply type, size field 3) in place of the k-th reply for every k; (iii) allocator: explicit-state BFS over all Get/Put sequences of the tag/fid allocator and 2-thread schedules; oracle at the server: outstanding tags pairwise distinct and never NOTAG, a new fid is never one the server has bound or is binding (fault-free sessions), at the callers: own token returned, errors only after a fault, no caller blocked at the end (deadlock detection); distinct = distinct (results, reply order) outcomes"
+	rep.Rule = "(i) 2-3 goroutines x 1-2 calls (GetAttr, Walk, Close, Remove, and UnlinkAt answered with a request-unique errno) on one real p9.Client against a scripted server whose actions (read the next request / answer any pending request) are a free data choice, i.e. every reply order incl. answering before the next request is read; all thread interleavings with at most 1 (quick) / 2 (thorough) preemptions, without reduction (the client's hand-off logic alone has more than 10^5 Mazurkiewicz traces for two calls, so unbounded DPOR does not terminate in budget); (ii) the same sessions with one fault (close, half frame then close, garbage frame, unknown tag, wrong reply type, size field 3) in place of the k-th reply for every k; (iii) allocator: explicit-state BFS over all Get/Put sequences of the tag/fid allocator and 2-thread schedules; oracle at the server: outstanding tags pairwise distinct and never NOTAG, a new fid is never one the server has bound or is binding (fault-free sessions), at the callers: own token returned, errors only after a fault, no caller blocked at the end (deadlock detection); distinct = distinct (results, reply order) outcomes"
 	rep.Assumptions = append(rep.Assumptions, "independence classes of DESIGN §2.2", "fid freshness is asserted in sessions without protocol faults only (DESIGN §4.0)", "GC finalizers of client files are off (DESIGN §6)")
 	shapes := [][][]string{
 		{{"getattr"}, {"getattr"}},
 		{{"walk"}, {"getattr"}},
 		{{"walk", "close"}, {"walk"}},
+		{{"unlink-err"}, {"unlink-err"}},
+		{{"unlink-err"}, {"getattr"}},
 	}
 	if !ctx.Quick() {
 		shapes = append(shapes, [][]string{{"walk", "remove"}, {"walk"}}, [][]string{{"walk", "close"}, {"getattr"}}, [][]string{{"walk", "close"}, {"walk", "close"}}, [][]string{{"getattr", "getattr"}, {"getattr"}},
